@@ -8,7 +8,7 @@
 //   obj quart <n> {<a> <e> <d> <m>}*n        at <x_i>*n      sum a_i t^4 + e_i t^2 + d_i t,  t = x_i - m_i
 //   opt <kind> <k|i|a> <tol|-> <maxeval> <extra>
 //        kind : gss <lo> <hi> | brent <lo> <hi> <out|in> | nback <slope> <test> | newton1 | simple
-//               | snewton | powell | simplex | cg | bfgs | meta <full|step>
+//               | snewton | powell | simplex | cg | bfgs | meta <full|step> [<n>]   (n: number of progressive steps, default 2)
 //   init <k> {<index> <value> <con>}*k       con : N | I <lo|*> <hi|*> <inclLo> <inclHi>
 //   step | optimize
 //   setmax <n>                                setMaximumNumberOfEvaluations(n) on the optimiser that exists
@@ -235,7 +235,8 @@ struct Machine {
         for (size_t j = 0; j < n; ++j) (j < h ? g1 : g2).push_back(pname(j));
         desc->addOptimizer("simple", std::make_shared<SimpleMultiDimensions>(f0), g1, 0, type);
         if (!g2.empty()) desc->addOptimizer("bfgs", std::make_shared<BfgsMultiDimensions>(f1), g2, 1, type);
-        opt = std::make_shared<MetaOptimizer>(f0, std::move(desc), 2);
+        unsigned int nsteps = t.size() > i + 1 ? (unsigned int)toU(t.at(i + 1)) : 2;
+        opt = std::make_shared<MetaOptimizer>(f0, std::move(desc), nsteps);
       }
       else return "bad-op";
       opt->setVerbose(0); opt->setProfiler(nullptr); opt->setMessageHandler(nullptr);
